@@ -249,7 +249,8 @@ def gen_cases(rng, tier):
 	for k in range(3 if quick else 30):
 		cases.append({'kind': 'root', 'label': ('default', 'symbol', 'nem')[k % 3], 'seed': rand_seed(rng, k // 3).hex()})
 	# facade paths
-	names = ['mainnet', 'testnet']
+	# '#copy': the facade is given a Network OBJECT equal to the shipped one but not the same object (deep copy / rebuilt from its fields)
+	names = ['mainnet', 'testnet', 'mainnet#copy', 'testnet#copy']
 	accounts = BOUNDARY + [2, 7, rng.randrange(2**31), rng.randrange(2**31)]
 	if not quick:
 		accounts += [rng.randrange(2**31) for _ in range(40)] + [2**31, 2**32, -1]
@@ -304,12 +305,18 @@ def facade_for(kind, name):
 			from symbolchain.facade.SymbolFacade import SymbolFacade
 			from symbolchain.symbol.Network import Network
 			network = name if name in ('mainnet', 'testnet') else Network(name, 0x68, datetime.datetime(2021, 3, 16, tzinfo=datetime.timezone.utc))
+			if name.endswith('#copy'):
+				import copy
+				network = copy.deepcopy(getattr(Network, name[:-5].upper()))
 			_FACADES[(kind, name)] = SymbolFacade(network)
 		else:
 			ensure_nem_key_pair_usable()
 			from symbolchain.facade.NemFacade import NemFacade
 			from symbolchain.nem.Network import Network
 			network = name if name in ('mainnet', 'testnet') else Network(name, 0x68, datetime.datetime(2015, 3, 29, tzinfo=datetime.timezone.utc))
+			if name.endswith('#copy'):
+				import copy
+				network = copy.deepcopy(getattr(Network, name[:-5].upper()))
 			_FACADES[(kind, name)] = NemFacade(network)
 	return _FACADES[(kind, name)]
 
@@ -442,7 +449,7 @@ def model(case):
 		return f'render_node (from_seed_sha512 {label} {blit(bytes.fromhex(case["seed"]))})'
 	if kind == 'path':
 		function = 'symbol_bip32_path' if case['facade'] == 'symbol' else 'nem_bip32_path'
-		return f'commas ({function} {blit(case["network"].encode("utf8"))} {zlit(case["account"])})'
+		return f'commas ({function} {blit(case["network"].replace("#copy", "").encode("utf8"))} {zlit(case["account"])})'
 	if kind == 'keypair':
 		if 'node' not in case:
 			return None
@@ -501,9 +508,9 @@ def oracle(case, out):
 	if kind == 'outside':
 		return None   # the property speaks about indices in [0, 2^31) only; behaviour outside is compared with the model
 	if kind == 'path':
-		if case['network'] not in ('mainnet', 'testnet'):
+		if case['network'].replace('#copy', '') not in ('mainnet', 'testnet'):
 			return None
-		coin = {('symbol', 'mainnet'): 4343, ('nem', 'mainnet'): 43}.get((case['facade'], case['network']), 1)
+		coin = {('symbol', 'mainnet'): 4343, ('nem', 'mainnet'): 43}.get((case['facade'], case['network'].replace('#copy', '')), 1)
 		expected = f'44,{coin},{case["account"]},0,0'
 		return None if out == expected else f'{case["facade"]} {case["network"]} bip32_path({case["account"]}) = [{out}], expected [{expected}]'
 	if kind == 'keypair':
